@@ -170,6 +170,14 @@ pub fn e_el(el: PathEl) -> String {
 pub fn e_els<I: IntoIterator<Item = PathEl>>(els: I) -> String {
     els.into_iter().map(e_el).collect::<Vec<_>>().join(" ")
 }
+pub fn e_segs(l: &[PathSeg]) -> String {
+    let mut s = format!("{}", l.len());
+    for x in l {
+        s.push_str(" | ");
+        s.push_str(&e_seg(*x));
+    }
+    s
+}
 pub fn e_list(l: &[f64]) -> String {
     let mut s = format!("{}", l.len());
     for x in l {
